@@ -103,7 +103,7 @@ def evaluate_run(run, props, cov):
 def new_stats():
     return {'runs': 0, 'decisions': 0, 'thread_steps': 0, 'events_fired': 0, 'sim_time': 0.0,
             'outcomes': {}, 'faults': {}, 'probes': {}, 'strategies': {}, 'net': {},
-            'digests': {}, 'windows': [], 'unknown_lines': 0, 'boards': 0, 'tables': {},
+            'digests': {}, 'windows': [], 'unknown_lines': 0, 'boards': 0, 'tables': {}, 'extra': {},
             'cov': {'calls': [], 'cards': [], 'headers': [], 'voids': [], 'hand_sizes': []}}
 
 
